@@ -18,7 +18,7 @@
 //
 //	reset <nclients> <limit> <nfwd>      submit <payload> <pri> <fwd>     submitshort <payload> <pri> <fwd>
 //	fetch <max>   breset   flush   recv <cid> <fwd> <id>...   kill <cid> <fwd>   cancel <h>   close
-//	sendfail <cid> <fwd> <0|1>   lockrec <cid> <0|1>   setlimit <cid> <n>   cfgcancel <0|1>   audit
+//	sendfail <cid> <fwd> <0|1>   lockrec <cid> <0|1>   setlimit <cid> <n>   cfgcancel <0|1>   panicloop   audit
 //	bb <scenario> <seed> <nconn> <ncallers> <nreq> <faults>
 package main
 
@@ -28,6 +28,7 @@ import (
 	"io"
 	"net"
 	"os"
+	"runtime"
 	"sort"
 	"strconv"
 	"strings"
@@ -35,12 +36,14 @@ import (
 	"sync/atomic"
 	"time"
 
+	"github.com/pingcap/failpoint"
 	"github.com/pingcap/kvproto/pkg/kvrpcpb"
 	"github.com/pingcap/kvproto/pkg/tikvpb"
 	"github.com/pkg/errors"
 	"github.com/tikv/client-go/v2/config"
 	"github.com/tikv/client-go/v2/internal/client"
 	"github.com/tikv/client-go/v2/tikvrpc"
+	"github.com/tikv/client-go/v2/util"
 	"github.com/tikv/client-go/v2/verifx/vx"
 	"google.golang.org/grpc"
 	"google.golang.org/grpc/connectivity"
@@ -150,10 +153,13 @@ func (f *fakeStream) SendMsg(m any) error {
 			continue
 		}
 		if old, dup := f.w.wire[int(id)]; dup {
+			// the scripted server keeps answering the FIRST request it got under this id (like a real store whose
+			// response to the old request is still on its way)
 			f.w.fails = append(f.w.fails, fmt.Sprintf("id-reused id=%d first-payload=%d second-payload=%d", id, old, f.w.callers[h].payload))
+		} else {
+			f.w.wire[int(id)] = f.w.callers[h].payload
+			f.w.idOwner[int(id)] = h
 		}
-		f.w.wire[int(id)] = f.w.callers[h].payload
-		f.w.idOwner[int(id)] = h
 		f.ids = append(f.ids, int(id))
 	}
 	return nil
@@ -210,6 +216,8 @@ type wb struct {
 	// survive, un-failed).  sibKilled over-approximates the model's ghost flag `Stream.sib` (set only when the
 	// sibling WON), so sibKilled = false implies sib = false.
 	sibKilled map[[2]int]bool
+	limits    []int64
+	stuckSeen bool
 }
 
 type H struct {
@@ -245,6 +253,7 @@ func (h *H) interceptor(cid int) grpc.StreamClientInterceptor {
 }
 
 func (h *H) setup() {
+	util.EnableFailpoints()
 	lis, err := net.Listen("tcp", "127.0.0.1:0")
 	if err != nil {
 		panic(err)
@@ -316,6 +325,9 @@ func (h *H) reset(n, limit, nfwd int) string {
 	h.cur.Store(w)
 	w.v = client.VerifNewBatch("verif-c18-wb", h.conns[:n], maxBatch, int64(limit), 5*time.Second)
 	for cid := 0; cid < n; cid++ {
+		w.limits = append(w.limits, int64(limit))
+	}
+	for cid := 0; cid < n; cid++ {
 		w.outBase += w.v.Outdated(cid)
 	}
 	return "ok"
@@ -379,12 +391,17 @@ func (w *wb) collect(released map[int]bool) []string {
 		if !(released[c.h] || w.v.Ready(c.req)) {
 			continue
 		}
+		wait := waitLong
+		if w.stuckSeen {
+			wait = 2 * time.Second // the case already failed: do not spend another 30 s per caller
+		}
 		select {
 		case r := <-c.done:
 			out = append(out, c.finish(r))
-		case <-time.After(waitLong):
+		case <-time.After(wait):
 			out = append(out, fmt.Sprintf("FAIL caller-stuck h=%d", c.h))
 			c.returned = true
+			w.stuckSeen = true
 		}
 	}
 	return out
@@ -452,6 +469,7 @@ func (w *wb) submit(payload, pri, fwd int, short bool) string {
 			return "FAIL submit-not-enqueued"
 		}
 		w.callers = append(w.callers, c)
+		w.v.RegisterChannel()
 		head := []string{fmt.Sprintf("h %d", h)}
 		if short {
 			return join(head, w.collect(map[int]bool{h: true}))
@@ -607,6 +625,88 @@ func (w *wb) kill(cid, fwd int) string {
 	return join(head, w.collect(nil))
 }
 
+const sendLoopFrame = "batchConn).batchSendLoop"
+
+func sendLoopRunning() bool {
+	buf := make([]byte, 1<<20)
+	n := runtime.Stack(buf, true)
+	return strings.Contains(string(buf[:n]), sendLoopFrame)
+}
+
+// panicloop: the REAL batchSendLoop runs on this batchConn with failpoint tikvclient/mockBlockOnBatchClient=1*panic:
+// reset, fetchAllPendingRequests, PANIC, deferred recover, restart.  The restarted loop is woken with two nil sentinels
+// (reset, getClientAndSend; reset, exit because the queue is empty).  All clients are unlocked and unlimited meanwhile.
+func (w *wb) panicloop() string {
+	if w.v.ChLen() == 0 {
+		return "empty"
+	}
+	w.unlockAll()
+	for cid := 0; cid < w.n; cid++ {
+		w.v.SetLimit(cid, 1000000000)
+	}
+	defer func() {
+		for cid := 0; cid < w.n; cid++ {
+			w.v.SetLimit(cid, w.limits[cid])
+		}
+	}()
+	deadline := time.Now().Add(waitLong)
+	for sendLoopRunning() && time.Now().Before(deadline) { // a loop of an earlier (closed) black-box pool may still be exiting
+		time.Sleep(time.Millisecond)
+	}
+	pc0 := client.VerifPanicCount()
+	if err := failpoint.Enable("tikvclient/mockBlockOnBatchClient", "1*panic"); err != nil {
+		return "FAIL cannot-enable-failpoint"
+	}
+	w.v.RunSendLoop(maxBatch)
+	for client.VerifPanicCount() == pc0 && time.Now().Before(deadline) {
+		time.Sleep(20 * time.Microsecond)
+	}
+	failpoint.Disable("tikvclient/mockBlockOnBatchClient")
+	if client.VerifPanicCount() == pc0 {
+		return "FAIL send-loop-did-not-panic"
+	}
+	w.v.PushNil()
+	w.v.PushNil()
+	for sendLoopRunning() && time.Now().Before(deadline) {
+		time.Sleep(50 * time.Microsecond)
+	}
+	if sendLoopRunning() {
+		return "FAIL send-loop-did-not-exit"
+	}
+	if w.v.DrainNil() != 0 {
+		return "FAIL entries-left-in-channel"
+	}
+	w.dirty = false
+	if !w.drainFresh() {
+		return "FAIL recv-loop-not-started"
+	}
+	ida := w.v.IdAlloc()
+	head := []string{fmt.Sprintf("ida %d", ida), w.heapStr()}
+	// property op part: the id allocator survives the restart of the loop, and every id handed to Send during the op is new
+	if ida < w.maxID {
+		head = append(head, fmt.Sprintf("FAIL id-allocator-went-back ida=%d after=%d", ida, w.maxID))
+	}
+	w.mu.Lock()
+	if len(w.fails) > 0 {
+		head = append(head, "FAIL "+w.fails[0])
+	}
+	for _, f := range w.all {
+		for _, id := range f.ids {
+			if uint64(id) > w.maxID && uint64(id) > ida {
+				head = append(head, fmt.Sprintf("FAIL id-beyond-allocator id=%d ida=%d", id, ida))
+			}
+		}
+	}
+	w.mu.Unlock()
+	if ida > w.maxID {
+		w.maxID = ida
+	}
+	for cid := 0; cid < w.n; cid++ {
+		head = append(head, w.tblStr(cid))
+	}
+	return join(head, w.collect(nil))
+}
+
 func (w *wb) closeOp() string {
 	rel := map[int]bool{}
 	for _, c := range w.callers {
@@ -742,6 +842,8 @@ func (h *H) exec(line string) string {
 			return join([]string{"cancel"}, w.collect(rel))
 		case f[0] == "close" && len(a) == 0:
 			return w.closeOp()
+		case f[0] == "panicloop" && len(a) == 0:
+			return w.panicloop()
 		case f[0] == "sendfail" && len(a) == 3:
 			if a[0] >= w.n {
 				return "nostream"
@@ -761,6 +863,7 @@ func (h *H) exec(line string) string {
 		case f[0] == "setlimit" && len(a) == 2:
 			if a[0] < w.n {
 				w.v.SetLimit(a[0], int64(a[1]))
+				w.limits[a[0]] = int64(a[1])
 			}
 			return "ok"
 		case f[0] == "cfgcancel" && len(a) == 1:
@@ -819,6 +922,19 @@ type echoServer struct {
 	resolve map[uint64]int // start version -> requests seen
 	active  map[*srvStream]chan struct{} // live streams -> break signal
 	held    map[int]*srvStream           // payloads >= holdBase are never answered: payload -> stream that got it
+	release map[int]func()               // ... unless released: payload -> send the (already computed) response now
+}
+
+// releaseHeld sends the response that was computed when the held request arrived.
+func (s *echoServer) releaseHeld(payload int) bool {
+	s.mu.Lock()
+	f := s.release[payload]
+	s.mu.Unlock()
+	if f == nil {
+		return false
+	}
+	f()
+	return true
 }
 
 const holdBase = 1 << 20
@@ -928,6 +1044,7 @@ func (s *echoServer) BatchCommands(ss tikvpb.Tikv_BatchCommandsServer) error {
 	if s.active == nil {
 		s.active = map[*srvStream]chan struct{}{}
 		s.held = map[int]*srvStream{}
+		s.release = map[int]func(){}
 	}
 	s.active[st] = brk
 	s.mu.Unlock()
@@ -990,7 +1107,11 @@ func (s *echoServer) BatchCommands(ss tikvpb.Tikv_BatchCommandsServer) error {
 			r := encodeResp(kind, echo(p))
 			switch {
 			case p >= holdBase:
-				s.held[p] = st // held: never answered
+				s.held[p] = st // held: not answered until released
+				{
+					id, r := id, r
+					s.release[p] = func() { send([]uint64{id}, []*tikvpb.BatchCommandsResponse_Response{r}) }
+				}
 			case s.faults&fDrop != 0 && rng.Chance(8):
 				// never answered
 			case s.faults&fDelay != 0 && rng.Chance(40):
@@ -1165,7 +1286,151 @@ func (h *H) rebreak(seed, nconn, ncallers, rounds, faults int) string {
 	return "ok"
 }
 
+// looppanic: the real RPCClient; while a request is unanswered (held by the server) the batch send loop panics
+// (failpoint tikvclient/mockBlockOnBatchClient=1*panic) and recovers; further calls follow, one of them held as well;
+// then the server releases the OLD response first.  Every call must return its own echo or an error, and the ids seen
+// by the server must never repeat.  nreq = number of panics (rounds), ncallers = ordinary calls after each panic.
+func (h *H) looppanic(seed, nconn, ncallers, rounds, faults int) string {
+	h.cur.Load().endCase()
+	if nconn != 1 || ncallers < 1 || rounds < 1 || rounds > 4 {
+		return "bad-op"
+	}
+	restore := config.UpdateGlobal(func(c *config.Config) {
+		c.TiKVClient.MaxBatchSize = maxBatch
+		c.TiKVClient.GrpcConnectionCount = 1
+	})
+	defer restore()
+	defer failpoint.Disable("tikvclient/mockBlockOnBatchClient")
+	srv := &echoServer{seed: uint64(seed), resolve: map[uint64]int{}}
+	srv.start("")
+	defer srv.stop()
+	rpc := client.NewRPCClient()
+	defer rpc.Close()
+	addr := srv.addr
+	type res struct {
+		payload int
+		v       int
+		err     error
+	}
+	send := func(payload int, tmo time.Duration) res {
+		req := tikvrpc.NewRequest(tikvrpc.CmdGet, &kvrpcpb.GetRequest{Key: []byte(strconv.Itoa(payload))})
+		resp, err := rpc.SendRequest(context.Background(), addr, req, tmo)
+		if err != nil {
+			return res{payload, 0, err}
+		}
+		g, ok := resp.Resp.(*kvrpcpb.GetResponse)
+		if !ok {
+			return res{payload, -1, nil}
+		}
+		v, _ := strconv.Atoi(string(g.Value))
+		return res{payload, v, nil}
+	}
+	check := func(r res) string {
+		if r.err != nil {
+			h.run.Count("bb:looppanic:err:" + errClass(r.err))
+			return ""
+		}
+		h.run.Count("bb:looppanic:ok")
+		if r.v != echo(r.payload) {
+			return fmt.Sprintf("FAIL wrong-response payload=%d got=%d (echo of payload %d)", r.payload, r.v, (r.v-1)/2)
+		}
+		return ""
+	}
+	const heldTimeout = 6 * time.Second
+	next := 0
+	waitHeld := func(p int) bool {
+		dl := time.Now().Add(waitLong)
+		for time.Now().Before(dl) {
+			if srv.heldOn([]int{p}) == 1 {
+				return true
+			}
+			time.Sleep(200 * time.Microsecond)
+		}
+		return false
+	}
+	for r := 1; r <= rounds; r++ {
+		// warm up: ordinary calls
+		for i := 0; i < 2; i++ {
+			next++
+			if m := check(send(next, 2*time.Second)); m != "" {
+				return m
+			}
+		}
+		// an unanswered request A
+		pa := holdBase + r*10
+		ca := make(chan res, 1)
+		go func() { ca <- send(pa, heldTimeout) }()
+		if !waitHeld(pa) {
+			return fmt.Sprintf("FAIL held-request-not-at-server round=%d", r)
+		}
+		// the send loop panics on the next request B and recovers
+		pc0 := client.VerifPanicCount()
+		if err := failpoint.Enable("tikvclient/mockBlockOnBatchClient", "1*panic"); err != nil {
+			return "FAIL cannot-enable-failpoint"
+		}
+		next++
+		pb := next
+		cb := make(chan res, 1)
+		go func() { cb <- send(pb, heldTimeout) }()
+		dl := time.Now().Add(waitLong)
+		for client.VerifPanicCount() == pc0 && time.Now().Before(dl) {
+			time.Sleep(50 * time.Microsecond)
+		}
+		failpoint.Disable("tikvclient/mockBlockOnBatchClient")
+		if client.VerifPanicCount() == pc0 {
+			return "FAIL send-loop-did-not-panic"
+		}
+		// ordinary calls after the restart (the first one also wakes the restarted loop)
+		for i := 0; i < ncallers; i++ {
+			next++
+			if m := check(send(next, 2*time.Second)); m != "" {
+				return m
+			}
+		}
+		// another unanswered request D, then the server answers the OLD request A first, then D
+		pd := holdBase + r*10 + 1
+		cd := make(chan res, 1)
+		go func() { cd <- send(pd, heldTimeout) }()
+		if !waitHeld(pd) {
+			return fmt.Sprintf("FAIL second-held-request-not-at-server round=%d", r)
+		}
+		srv.releaseHeld(pa)
+		time.Sleep(20 * time.Millisecond)
+		srv.releaseHeld(pd)
+		for _, c := range []chan res{ca, cb, cd} {
+			select {
+			case x := <-c:
+				if m := check(x); m != "" {
+					return m
+				}
+			case <-time.After(heldTimeout + bbSlack):
+				return fmt.Sprintf("FAIL caller-stuck round=%d", r)
+			}
+		}
+	}
+	srv.mu.Lock()
+	defer srv.mu.Unlock()
+	seen := map[uint64]int{}
+	for _, st := range srv.streams {
+		var last uint64
+		for i, id := range st.ids {
+			if prev, dup := seen[id]; dup {
+				return fmt.Sprintf("FAIL id-reused id=%d payloads=%d,%d", id, prev, st.payloads[i])
+			}
+			if id <= last {
+				return fmt.Sprintf("FAIL ids-not-increasing id=%d after=%d stream=%d", id, last, st.seq)
+			}
+			last = id
+			seen[id] = st.payloads[i]
+		}
+	}
+	return "ok"
+}
+
 func (h *H) blackbox(scn string, seed, nconn, ncallers, nreq, faults int) string {
+	if scn == "looppanic" {
+		return h.looppanic(seed, nconn, ncallers, nreq, faults)
+	}
 	if scn == "rebreak" {
 		return h.rebreak(seed, nconn, ncallers, nreq, faults)
 	}
@@ -1446,8 +1711,11 @@ func genCase(r *vx.Rand, emit func(string), nops int) {
 			emit(fmt.Sprintf("lockrec %d 1", c))
 			emit("flush")
 			emit(fmt.Sprintf("lockrec %d 0", c))
-		case x < 98:
+		case x < 97:
 			emit(fmt.Sprintf("setlimit %d %d", r.Intn(n), []int{0, 1, 2, 4, defLimit}[r.Intn(5)]))
+		case x < 98:
+			emit("panicloop")
+			inCh = 0
 		default:
 			emit("fetch 128")
 			emit("flush")
@@ -1493,6 +1761,48 @@ func genRebreak(r *vx.Rand, emit func(string), k, variant int) {
 			emit(fmt.Sprintf("kill %d %d", tcid, (tfwd+1)%(nfwd+1)))
 		}
 		emit(fmt.Sprintf("kill %d %d", tcid, tfwd))
+	}
+	emit("close")
+	emit("audit")
+}
+
+// genLoopPanic: the send loop panics and recovers while earlier requests are unanswered; more requests follow and
+// the old ones are answered late.
+func genLoopPanic(r *vx.Rand, emit func(string), k int) {
+	n, nfwd := 1+r.Intn(2), r.Intn(2)
+	emit(fmt.Sprintf("reset %d %d %d", n, defLimit, nfwd))
+	subs := 0
+	sub := func(m int) {
+		for i := 0; i < m; i++ {
+			emit(fmt.Sprintf("submit %d %d %d", 1000+subs, r.Intn(16), r.Intn(nfwd+1)))
+			subs++
+		}
+	}
+	sub(1 + r.Intn(3))
+	emit("fetch 128")
+	emit("flush") // unanswered requests in the table
+	for round := 0; round < k; round++ {
+		sub(1 + r.Intn(3))
+		if r.Chance(30) && subs > 0 {
+			emit(fmt.Sprintf("cancel %d", r.Intn(subs)))
+		}
+		emit("panicloop")
+		sub(1 + r.Intn(3))
+		emit("fetch 128")
+		emit("flush")
+		// late answers for old and new ids, on every stream
+		for c := 0; c < n; c++ {
+			for f := 0; f <= nfwd; f++ {
+				emit(fmt.Sprintf("recv %d %d %d %d", c, f, 1+r.Intn(subs), 1+r.Intn(subs)))
+			}
+		}
+	}
+	for c := 0; c < n; c++ {
+		ids := make([]string, subs)
+		for i := range ids {
+			ids[i] = strconv.Itoa(i + 1)
+		}
+		emit(fmt.Sprintf("recv %d 0 %s", c, strings.Join(ids, " ")))
 	}
 	emit("close")
 	emit("audit")
@@ -1553,6 +1863,14 @@ func main() {
 			}
 		}
 	}
+	// directed family: the send loop panics and recovers 1..3 times with unanswered requests
+	for rep := 0; rep < nre; rep++ {
+		for k := 1; k <= 3; k++ {
+			newCase()
+			run.Count(fmt.Sprintf("family:looppanic:k%d", k))
+			genLoopPanic(r.Fork(), do, k)
+		}
+	}
 	for i := 0; i < ncases; i++ {
 		newCase()
 		nops := 20 + r.Intn(100)
@@ -1580,6 +1898,9 @@ func main() {
 		{"rebreak", 1, 4, 2, 0},
 		{"rebreak", 1, 3, 3, fForward},
 		{"rebreak", 1, 3, 4, 0},
+		// the send loop panics and recovers nreq times while a request is unanswered
+		{"looppanic", 1, 3, 1, 0},
+		{"looppanic", 1, 2, 2, 0},
 	}
 	for rep := 0; rep < nbb; rep++ {
 		for _, s := range base {
@@ -1589,7 +1910,7 @@ func main() {
 			if run.Thorough() {
 				sc = 2
 			}
-			if s.name == "rebreak" {
+			if s.name == "rebreak" || s.name == "looppanic" {
 				sc = 1
 			}
 			do(fmt.Sprintf("bb %s %d %d %d %d %d", s.name, r.Intn(1<<30), s.nconn, s.ncallers*sc, s.nreq, s.faults))
